@@ -127,9 +127,10 @@ func genSpec(rng *rand.Rand, i int, thorough bool) tableSpec {
 	s.MaxVersions = pick(rng, 1, 2, 3)
 	s.ValLen = pick(rng, 0, 3, 10, 40, 120)
 	if thorough && rng.IntN(8) == 0 {
-		s.NPrefixes = pick(rng, 80, 150, 300)
-		s.MaxVersions = pick(rng, 1, 3, 5)
-		s.ValLen = pick(rng, 10, 40, 120, 400)
+		// a minority of larger tables (up to ~64KiB)
+		s.NPrefixes = pick(rng, 80, 150)
+		s.MaxVersions = pick(rng, 1, 3)
+		s.ValLen = pick(rng, 10, 40, 120)
 	}
 	s.UniformKV = rng.IntN(3) == 0
 	if s.UniformKV {
